@@ -336,6 +336,7 @@ static void apply_msgs(int n) {
   snap_valid = 0;
 }
 
+static int convert_cursor = 1;      /* newfbraw: the application does NOT touch the cursor after the replacement */
 static void do_newfb(int w, int h, int b, uint32_t seed) {
   char *old = scr->frameBuffer, *nb = (char *)malloc((size_t)w * h * b + 1);
   int i, fmtchg = (b != B), cx0 = scr->cursorX, cy0 = scr->cursorY;
@@ -347,7 +348,7 @@ static void do_newfb(int w, int h, int b, uint32_t seed) {
   free(old);                                            /* any later touch of the old buffer: ASan */
   W = w; H = h; B = b;
   /* "Rich cursor data should be converted to new pixel format by the caller" */
-  if (fmtchg && scr->cursor && scr->cursor->richSource) rfbMakeRichCursorFromXCursor(scr, scr->cursor);
+  if (convert_cursor && fmtchg && scr->cursor && scr->cursor->richSource) rfbMakeRichCursorFromXCursor(scr, scr->cursor);
   for (i = 0; i < MAXC; i++) {
     if (!live(i)) continue;
     check_scaled(i);
@@ -472,6 +473,9 @@ int main(void) {
       if (!live(id)) { puts("closed"); continue; }
       vh_drain(&conns[id]);
       hc[id].scaled = conns[id].cl->scaledScreen != scr;
+      /* a scaled version this viewer has just picked up alone (newly made, or an idle one left over from
+         an earlier scale - possibly from before a replacement) must be the reduced CURRENT framebuffer */
+      if (conns[id].cl->scaledScreen != scr && conns[id].cl->scaledScreen->scaledScreenRefCount == 1) check_scaled(id);
       apply_msgs(id);
       if (rerequest) full_request(id); else hc[id].needfull = 1;
     } else if (!strcmp(tok[0], "ptr") && n == 4) {
@@ -518,7 +522,8 @@ int main(void) {
       if (hook_mode && ns > 0 && (hook_calls != calls0 + 1 || hook_last_ns != ns)) printf("!sds %d FAIL hook calls %d (screens seen %d, sent %d)\n", id, hook_calls - calls0, hook_last_ns, ns);
       if (ns == 0 && hook_calls != calls0) printf("!sds %d FAIL hook called for a request without screens\n", id);
       puts(live(id) ? "ok" : "closed");
-    } else if (!strcmp(tok[0], "newfb") && n == 5) {
+    } else if ((!strcmp(tok[0], "newfb") || !strcmp(tok[0], "newfbraw")) && n == 5) {
+      convert_cursor = strcmp(tok[0], "newfbraw") != 0;
       int w = atoi(tok[1]), h = atoi(tok[2]), b = atoi(tok[3]);
       if (w < 1 || h < 1 || b < 1 || b > 4) { puts("bad-op"); continue; }
       do_newfb(w, h, b, (uint32_t)atoi(tok[4]) + 100000u);
